@@ -24,6 +24,20 @@ pub struct Case {
     /// entries of other documents held by the same stores: (in A's store?, namespace slot, entry)
     #[serde(default)]
     pub others: Vec<(bool, u8, EGen)>,
+    /// after the first session (and the silent second one) both sides change again and are reconciled once more
+    #[serde(default)]
+    pub phase2: Option<Phase2>,
+}
+
+#[derive(Serialize, Deserialize, Clone, Debug)]
+pub struct Phase2 {
+    /// remove the document and import it again (it is then empty) before the new entries are offered
+    pub recreate_a: bool,
+    pub recreate_b: bool,
+    pub a: Vec<EGen>,
+    pub b: Vec<EGen>,
+    /// drop and reopen file-backed stores before the session
+    pub reopen: bool,
 }
 
 impl Prop for C01 {
@@ -56,8 +70,10 @@ impl Prop for C01 {
             prop::bool::weighted(0.15),
             sync_config(),
             prop_oneof![2 => Just(vec![]), 1 => vec((any::<bool>(), 0u8..6, egen()), 1..=6)],
+            prop::option::weighted(0.3, (prop::bool::weighted(0.3), prop::bool::weighted(0.3), vec(egen(), 0..=6), vec(egen(), 0..=6), any::<bool>()))
+                .prop_map(|p| p.map(|(recreate_a, recreate_b, a, b, reopen)| Phase2 { recreate_a, recreate_b, a, b, reopen })),
         )
-            .prop_map(|(pools, a, b, file_a, file_b, config, others)| Case { pools, a, b, file_a, file_b, config, others })
+            .prop_map(|(pools, a, b, file_a, file_b, config, others, phase2)| Case { pools, a, b, file_a, file_b, config, others, phase2 })
             .boxed()
     }
 
@@ -253,6 +269,76 @@ fn check(ctx: &mut Ctx, c: &Case, o: &mut Outcome) -> R<()> {
         if dump(&mut sa.store, ns)? != fa || dump(&mut sb.store, ns)? != fb {
             o.fail("C01/second-session-changed-state", ctxs());
             break;
+        }
+        // second phase: the two (now equal) replicas change again - more entries, removal + re-creation of the document,
+        // reopen - and are reconciled once more: whatever the first sessions left behind must not influence this one
+        if let Some(p2) = &c.phase2 {
+            o.class("second-phase");
+            let more_a: Vec<SignedEntry> = p2.a.iter().map(|e| sign(&nssec, &to_espec(e, &authors, &keys))).collect();
+            let more_b: Vec<SignedEntry> = p2.b.iter().map(|e| sign(&nssec, &to_espec(e, &authors, &keys))).collect();
+            for (side, recreate, more) in [(0, p2.recreate_a, &more_a), (1, p2.recreate_b, &more_b)] {
+                let st = if side == 0 { &mut sa } else { &mut sb };
+                if recreate {
+                    es(st.store.remove_replica(&ns))?;
+                    es(st.store.import_namespace(nssec.clone().into()))?;
+                    o.class("second-phase/document-removed-and-re-created");
+                }
+                ctx.rt.block_on(async {
+                    let mut r = es(st.store.open_replica(&ns))?;
+                    for e in more.iter() {
+                        let _ = r.insert_remote_entry(e.clone(), [9u8; 32], iroh_docs::ContentStatus::Missing).await;
+                    }
+                    Ok::<(), String>(())
+                })?;
+                st.store.close_replica(ns);
+            }
+            if p2.reopen {
+                sa = sa.reopen()?;
+                sb = sb.reopen()?;
+            }
+            let da2 = dump(&mut sa.store, ns)?;
+            let db2 = dump(&mut sb.store, ns)?;
+            let want2 = Model::merge(da2.iter().chain(db2.iter())).dump();
+            let t3 = if initiator_is_a {
+                run_session(&ctx.rt, &mut sa.store, &mut sb.store, ns, bound + 40)?
+            } else {
+                run_session(&ctx.rt, &mut sb.store, &mut sa.store, ns, bound + 40)?
+            };
+            o.count("sessions_run_to_completion", 1);
+            let fa2 = dump(&mut sa.store, ns)?;
+            let fb2 = dump(&mut sb.store, ns)?;
+            if !t3.completed || fa2 != fb2 || fa2 != want2 {
+                o.fail(
+                    "C01/second-phase-diverged",
+                    format!(
+                        "after the first sessions A{} got {} and B{} got {}; before the new session A = {}, B = {}; after it (completed={}) A = {}, B = {}, the merge is {}; {label}, config {:?}",
+                        if p2.recreate_a { " was removed and re-created and" } else { "" },
+                        describe_all(&more_a),
+                        if p2.recreate_b { " was removed and re-created and" } else { "" },
+                        describe_all(&more_b),
+                        describe_all(&da2),
+                        describe_all(&db2),
+                        t3.completed,
+                        describe_all(&fa2),
+                        describe_all(&fb2),
+                        describe_all(&want2),
+                        c.config
+                    ),
+                );
+                break;
+            }
+            if t3.init_out.num_sent != t3.resp_out.num_recv || t3.init_out.num_recv != t3.resp_out.num_sent {
+                o.fail("C01/counters", format!("second phase: initiator sent {} recv {}, responder sent {} recv {}", t3.init_out.num_sent, t3.init_out.num_recv, t3.resp_out.num_sent, t3.resp_out.num_recv));
+                break;
+            }
+            for (s, n) in [(&mut sa.store, "A"), (&mut sb.store, "B")] {
+                if let Err(e) = self_consistent(s, ns) {
+                    o.fail("C01/consistency", format!("{n} after the second-phase session: {e}"));
+                }
+            }
+            if o.failed() {
+                break;
+            }
         }
         sa.cleanup();
         sb.cleanup();
